@@ -473,6 +473,12 @@ fn all_edits(w: &World, tap: bool, ins: &[Ins]) -> Vec<(String, Vec<u8>)> {
                     out.push(("num-opn-to-push2".into(), raw_with(i, &[2, c - 0x50, 0])));
                     let d = if *c == 0x60 { 0x5f } else { c + 1 };
                     out.push(("num-opn-change".into(), with(i, &[Ins::Op(d)])));
+                    if *c == 0x51 {
+                        out.push(("num-one-to-reserved".into(), with(i, &[Ins::Op(0x50)])));
+                    }
+                    if *c == 0x60 {
+                        out.push(("num-16-to-nop".into(), with(i, &[Ins::Op(0x61)])));
+                    }
                 }
                 for (a, b) in OP_SWAPS.iter() {
                     if c == a {
@@ -499,6 +505,10 @@ fn all_edits(w: &World, tap: bool, ins: &[Ins]) -> Vec<(String, Vec<u8>)> {
                         out.push(("num-zero-to-push".into(), raw_with(i, &[1, 0])));
                         out.push(("num-zero-to-negzero".into(), raw_with(i, &[1, 0x80])));
                         out.push(("num-zero-to-one".into(), with(i, &[Ins::Op(0x51)])));
+                        // the opcodes next to the number opcodes (seeded change C04-9: an off-by-one range
+                        // test in the lexer read OP_RESERVED as the number 0)
+                        out.push(("num-zero-to-reserved".into(), with(i, &[Ins::Op(0x50)])));
+                        out.push(("num-zero-to-1negate".into(), with(i, &[Ins::Op(0x4f)])));
                     }
                     1..=5 => {
                         // a number push: pad (non-minimal), negate, shrink to OP_n, neighbours
